@@ -41,6 +41,11 @@ def base_shapes(tier):
     out += [S.Shape("rmix1", [F("G", "opt", [F("H", "req", [F("X", "opt", "int32"), F("Y", "req", "string")]), F("Z", "req", "int64")])], desc="opt{req{opt,req},req}"),
             S.Shape("rmix2", [F("G", "req", [F("H", "opt", [F("X", "req", "int32"), F("Y", "opt", "string")])]), F("Z", "opt", "float64")], desc="req{opt{req,opt}},opt"),
             S.Shape("rmix3", [F("G", "opt", [F("H", "req", [F("X", "opt", "bool")])])], desc="opt{req{opt}}")]
+    if S.TAGGED:
+      out += [S.Shape("rtag1", [F("ID", "req", "int64", col="id"), F("HomeAddress", "opt", [F("Street", "req", "string", col="street_name"), F("Zip", "opt", "int32", col="zip")], col="home_address"),
+                              F("Score", "req", "float64")], desc="snake_case column names given by tags, also for a group"),
+            S.Shape("rtag2", [F("A", "req", [F("B", "opt", [F("C", "req", "bool", col="is_set")], col="inner_group")], col="outer_group"), F("Note", "opt", "string", col="note_text")],
+                    desc="nested groups with snake_case tag names")]
     return out
 
 
